@@ -575,11 +575,19 @@ def direction_b(chk, lib, tmp, nrec):
     recs = gen_records(rng, nrec)
     runs = {}
     trace = []
+    raised = {}
     for rid, rec in enumerate(recs):
         try:
             res = run_code(lib, rec, tmp, tag="b")
         except Exception as e:
-            chk.violation(f"raises:{type(e).__name__}", dict(rec, error=str(e), direction="B"))
+            # whether the input is in the domain (no coincident particles under the periodic images, no half-cell tie) is
+            # decided by the specification: the record goes to TraceHessian as "nothing delivered"; a tie is skipped,
+            # anything else is reported as raises:<Type>
+            raised[rid] = e
+            t = dict(rec)
+            t.update(id=rid, shift=1 if rec["shift"] else 0, pattern=[], symmetric=0, finite=0)
+            trace.append(t)
+            runs[rid] = (rec, None, t)
             continue
         Hm = np.asarray(res["matrix"], dtype=float)
         N, dim = len(rec["pos"]), rec["dim"]
@@ -603,6 +611,10 @@ def direction_b(chk, lib, tmp, nrec):
         rejected.add(trace[idx]["id"])
         if clause.startswith("BadRecord"):
             raise common.MachineryError(f"the recorder produced a malformed trace record: {json.dumps(rec)}")
+        if trace[idx]["id"] in raised:
+            e = raised[trace[idx]["id"]]
+            chk.violation(f"raises:{type(e).__name__}", dict(rec, error=str(e), direction="B"))
+            continue
         chk.violation("trace:" + clause, dict(rec, direction="B", observed_pattern=t["pattern"],
                                               symmetric=t["symmetric"], finite=t["finite"]))
     printed = {c["id"]: c for c in r.cases if c.get("m") in ("TraceExpect", "TraceTie")}
@@ -617,6 +629,8 @@ def direction_b(chk, lib, tmp, nrec):
         if case["m"] == "TraceTie":
             chk.tie()
             continue
+        if rid in raised:
+            raise common.MachineryError(f"TraceHessian accepted record {rid} although nothing was delivered")
         if not case["formal"]:
             raise common.MachineryError(f"formal clauses fail on the assembled matrix of trace record {rid}")
         env = eval_defs(case["defs"])
